@@ -44,7 +44,7 @@ class C12(Prop):
                 'C12.step_frame', 'C12.step_fresh', 'C12.step_grows', 'C12.run_frame', 'C12.sro_refines', 'C12.add_refines',
                 'C12.iadd_in_place']
     proof_modules = ['DznProofs.C12', 'DznProofs.C12Heap']
-    level_rule = ('histories of 2-12 builds in one interpreter over shared and distinct parsed models with valid and '
+    level_rule = ('heap histories of scoping operations on real NamespaceIds/NamespaceTree objects (contents of every live object and the sharing of list objects compared with DznModel.ScopingHeap after every step); histories of 2-12 builds in one interpreter (one Builder, one Configuration object edited in place, sibling models built right after the model they derive from, selections as explicit name sets built twice) over shared and distinct parsed models with valid and '
                   'invalid configurations; before/after deep structural snapshots of the parsed model and of the '
                   'configuration object; every result compared with a fresh interpreter per build and with the Lean '
                   'model; support files compared with stand-alone create_header(prefix); non-trivial = history with '
